@@ -99,3 +99,23 @@ pub async fn open_rec(w: &Written) -> Result<(FileReader, Arc<RecIo>), String> {
     .map_err(|e| format!("try_open_with_file_metadata: {e}"))?;
     Ok((r, io))
 }
+
+/// Run `f`; a panic (on this thread or on a runtime worker while `f` runs) is reported with its message and
+/// location.  Panics caught inside lance (JoinError of a spawned encode / decode task) are recorded too:
+/// `last_panics()` returns what was printed since the call started.
+static PANICS: Mutex<Vec<String>> = Mutex::new(Vec::new());
+pub fn catch_msg<T>(f: impl FnOnce() -> T) -> (Result<T, String>, Vec<String>) {
+    PANICS.lock().unwrap().clear();
+    let prev = std::panic::take_hook();
+    std::panic::set_hook(Box::new(|info| {
+        let loc = info.location().map(|l| format!("{}:{}", l.file(), l.line())).unwrap_or_default();
+        let msg = if let Some(s) = info.payload().downcast_ref::<&str>() { s.to_string() } else if let Some(s) = info.payload().downcast_ref::<String>() { s.clone() } else { "?".to_string() };
+        if let Ok(mut p) = PANICS.lock() {
+            p.push(format!("panic at {loc}: {}", msg.chars().take(300).collect::<String>()));
+        }
+    }));
+    let r = std::panic::catch_unwind(std::panic::AssertUnwindSafe(f));
+    std::panic::set_hook(prev);
+    let seen = PANICS.lock().unwrap().clone();
+    (r.map_err(|_| seen.last().cloned().unwrap_or_else(|| "panic".to_string())), seen)
+}
